@@ -382,6 +382,52 @@ example : exampleSampler.model.hasField = false := hasField_zero _ rfl
 /-- the identity-like routines are lawful, so the hypotheses of the trajectory theorems are satisfiable -/
 example : ∃ mv : Moves, mv.Lawful := ⟨witnessMoves, witnessMoves_lawful⟩
 
+/-- routines that tell the two sweeps apart: the heat-bath sweep flips every spin, the Metropolis sweep
+only pads the container; everything else idle (lawful, with the heat-bath padding law) -/
+def flipMoves : Moves := { witnessMoves with
+  heat := fun _ c _ w => { w with state := w.state.map not, slots := growSlots w.slots c } }
+
+theorem flipMoves_lawful : flipMoves.Lawful ∧ flipMoves.HeatPad :=
+  ⟨⟨fun _ c _ w => by simp [flipMoves, witnessMoves, growSlots_idem], fun _ => rfl, fun _ => rfl⟩,
+   fun _ c _ w => by simp [flipMoves, witnessMoves, growSlots_idem]⟩
+
+theorem flipMoves_step_state (q : GenericSampler) (beta : Rat) (rng : List Nat) :
+    (genericTimestep flipMoves q beta rng).1.state = (if q.doHeatbath then q.state.map not else q.state) ∧
+    (genericTimestep flipMoves q beta rng).1.doHeatbath = q.doHeatbath := by
+  unfold genericTimestep
+  cases q.doHeatbath <;> cases q.doLoopUpdates <;> cases q.shouldDoClusterUpdate <;>
+    simp [flipMoves, witnessMoves]
+
+/-- Why the sweep must follow the FLAG and not the cached table (seeded mutation C15-17): heat-bath on, one
+step, heat-bath off, one step.  The code's composition flips the spins once (as the Ising sampler does,
+`convert_trajectory_option_history`); the variant that keeps using a table once cached flips them twice. -/
+theorem sticky_table_diverges (q : GenericSampler) (beta : Rat) :
+    let c1 := genericTimestep flipMoves (q.setDoHeatbath true) beta []
+    let c2 := genericTimestep flipMoves (c1.1.setDoHeatbath false) beta c1.2
+    let s1 := stickyTimestep flipMoves (q.setDoHeatbath true, false) beta []
+    let s2 := stickyTimestep flipMoves (s1.1.1.setDoHeatbath false, s1.1.2) beta s1.2
+    c2.1.state = q.state.map not ∧ s2.1.1.state = (q.state.map not).map not := by
+  intro c1 c2 s1 s2
+  have hc1 := flipMoves_step_state (q.setDoHeatbath true) beta []
+  have hc2 := flipMoves_step_state (c1.1.setDoHeatbath false) beta c1.2
+  have hs1 := flipMoves_step_state { (q.setDoHeatbath true) with doHeatbath := (false || (q.setDoHeatbath true).doHeatbath) } beta []
+  have hs2 := flipMoves_step_state { (s1.1.1.setDoHeatbath false) with doHeatbath := (s1.1.2 || (s1.1.1.setDoHeatbath false).doHeatbath) } beta s1.2
+  constructor
+  · show (genericTimestep flipMoves (c1.1.setDoHeatbath false) beta c1.2).1.state = _
+    rw [hc2.1]
+    simp only [setDoHeatbath, Bool.false_eq_true, if_false]
+    show (genericTimestep flipMoves (q.setDoHeatbath true) beta []).1.state = _
+    rw [hc1.1]; simp [setDoHeatbath]
+  · show (genericTimestep flipMoves _ beta s1.2).1.state = _
+    rw [hs2.1]
+    have hcache : s1.1.2 = true := by simp [s1, stickyTimestep, setDoHeatbath]
+    have hst : s1.1.1.state = q.state.map not := by
+      show (genericTimestep flipMoves _ beta []).1.state = _
+      rw [hs1.1]; simp [setDoHeatbath]
+    simp [setDoHeatbath, hcache, hst]
+
+example : (([false, true] : List Bool).map not).map not ≠ [false, true].map not := by decide
+
 /-- non-vacuity of the option-history theorem: lawful routines with the heat-bath padding law exist,
 `exampleSampler` is in the domain, and a history "on, 1 step; off, 2 steps; on, 1 step"
 is a history. -/
